@@ -77,8 +77,17 @@ func runSplit(c *hc.Ctx) {
 			}
 			class += ":shared-endpoint"
 		}
+		switch c.Intn(8) {
+		case 0: // b starts directly above a's left end / crossings directly below a left end (status cases)
+			b0 = canvas.Point{X: a0.X, Y: a0.Y + float64(1+c.Intn(3))}
+			if !less(b0, b1) {
+				continue
+			}
+			class += ":same-left-x"
+		}
+		aIn, bIn := c.Chance(0.3), c.Chance(0.5)
 		c.Evals++
-		ret, zs, pushed, msg := canvas.VerifAddIntersections(a0, a1, b0, b1)
+		ret, zs, pushed, msg := canvas.VerifAddIntersections(a0, a1, b0, b1, aIn, bIn)
 		if msg != "" {
 			// the sweep's own consistency panics (vertical reversal) are outside this contract
 			c.Count("addx:panic:" + strings.SplitN(msg, ":", 2)[0])
@@ -88,10 +97,11 @@ func runSplit(c *hc.Ctx) {
 		for _, z := range zs {
 			zt = append(zt, hc.H(z.X), hc.H(z.Y))
 		}
-		line := fmt.Sprintf("ADDX %s %s %s %s %s %s %s %s Z %d %s", hc.H(a0.X), hc.H(a0.Y), hc.H(a1.X), hc.H(a1.Y),
+		line := fmt.Sprintf("ADDX %s %s %s %s %s %s %s %s %s %s Z %d %s", hc.B(aIn), hc.B(bIn), hc.H(a0.X), hc.H(a0.Y), hc.H(a1.X), hc.H(a1.Y),
 			hc.H(b0.X), hc.H(b0.Y), hc.H(b1.X), hc.H(b1.Y), len(zs), strings.Join(zt, " "))
 		c.Case(strings.TrimSpace(line), "=", fmt.Sprintf("%v %d", ret, pushed))
 		c.Count(fmt.Sprintf("addx:%s zs=%d pushed=%d", class, len(zs), pushed))
+		c.Count(fmt.Sprintf("addx:in-status a=%v b=%v", aIn, bIn))
 		// the contract itself on the real code (gives the failing input when the tie breaks)
 		if ret != (pushed > 0) {
 			c.Fail("sweep:resort-flag-not-raised-after-split", fmt.Sprintf("addIntersections returned %v but pushed %d events", ret, pushed),
